@@ -1,7 +1,14 @@
 import SdcModel.UdpRepeat
+import SdcModel.UdpSendLoop
 namespace Sdc.Generated
 open Sdc.UdpRepeat
 def unicast : Params := ⟨500, 2, 50, 250, 500⟩
 def multicast : Params := ⟨500, 4, 50, 250, 500⟩
 def knownIdsMaxlen : Nat := 200
+/-- SEND_LOOP_BUSY_SLEEP, SEND_LOOP_IDLE_SLEEP in µs -/
+def loopCfg : Sdc.UdpSendLoop.Cfg := ⟨10000, 100000⟩
+/-- the compared fields of `_EnqueuedMessage`, in dataclass order -/
+def queueKey : List String := ["send_time", "repeat"]
+/-- every `_send_*` of WSDiscovery: (name, destination is the multicast address, parameter set handed over) -/
+def senders : List (String × Bool × Params) := [("_send_bye", true, ⟨500, 4, 50, 250, 500⟩), ("_send_hello", true, ⟨500, 4, 50, 250, 500⟩), ("_send_probe", true, ⟨500, 4, 50, 250, 500⟩), ("_send_probe_match", false, ⟨500, 2, 50, 250, 500⟩), ("_send_resolve", true, ⟨500, 4, 50, 250, 500⟩), ("_send_resolve_match", false, ⟨500, 2, 50, 250, 500⟩)]
 end Sdc.Generated
